@@ -299,11 +299,26 @@ pub struct ReplayFile {
     pub detail: String,
     pub minimised: bool,
     pub plan: Value,
+    /// plans executed before `plan` in the same process (only when the violation needs the
+    /// process history of earlier runs of its chunk to reproduce)
+    #[serde(default)]
+    pub prelude: Vec<Value>,
 }
 
 /// run one plan in a fresh process; returns the report (None on harness failure / timeout)
 pub fn exec_fresh(prop: &str, plan: &Value, tmpdir: &Path, timeout: Duration) -> Result<RunReport, String> {
     exec_fresh_p(prop, plan, tmpdir, timeout, None)
+}
+
+pub fn exec_fresh_pre(prop: &str, prelude: &[Value], plan: &Value, tmpdir: &Path, timeout: Duration) -> Result<RunReport, String> {
+    PRELUDE.with(|p| *p.borrow_mut() = prelude.to_vec());
+    let r = exec_fresh_p(prop, plan, tmpdir, timeout, None);
+    PRELUDE.with(|p| p.borrow_mut().clear());
+    r
+}
+
+thread_local! {
+    static PRELUDE: std::cell::RefCell<Vec<Value>> = const { std::cell::RefCell::new(Vec::new()) };
 }
 
 /// like exec_fresh; with `progress`, the child keeps the plan of the sub-case it is executing in
@@ -312,7 +327,8 @@ pub fn exec_fresh_p(prop: &str, plan: &Value, tmpdir: &Path, timeout: Duration, 
     std::fs::create_dir_all(tmpdir).ok();
     let name = format!("cand-{}-{:016x}.json", std::process::id(), fnv64(plan.to_string().as_bytes()));
     let path = tmpdir.join(name);
-    std::fs::write(&path, json!({"property": prop, "plan": plan}).to_string()).map_err(|e| e.to_string())?;
+    let prelude: Vec<Value> = PRELUDE.with(|p| p.borrow().clone());
+    std::fs::write(&path, json!({"property": prop, "plan": plan, "prelude": prelude}).to_string()).map_err(|e| e.to_string())?;
     let exe = std::env::current_exe().unwrap();
     let mut cmd = Command::new(exe);
     cmd.arg("exec").arg(&path).stdin(Stdio::null()).stdout(Stdio::piped()).stderr(Stdio::null());
@@ -359,6 +375,10 @@ fn has_same(report: &RunReport, inv: &str, key: &str) -> Option<Violation> {
 }
 
 pub fn minimise(e: &dyn Engine, plan: Value, v: &Violation, tmpdir: &Path, budget: usize) -> (Value, Violation, usize) {
+    minimise_pre(e, &[], plan, v, tmpdir, budget)
+}
+
+pub fn minimise_pre(e: &dyn Engine, prelude: &[Value], plan: Value, v: &Violation, tmpdir: &Path, budget: usize) -> (Value, Violation, usize) {
     let hang = v.invariant == "T4";
     let budget = if hang { budget.min(24) } else { budget };
     let timeout = if hang { Duration::from_secs(6) } else { Duration::from_secs(30) };
@@ -373,7 +393,7 @@ pub fn minimise(e: &dyn Engine, plan: Value, v: &Violation, tmpdir: &Path, budge
                 break;
             }
             execs += 1;
-            match exec_fresh(e.id(), &cand, tmpdir, timeout) {
+            match exec_fresh_pre(e.id(), prelude, &cand, tmpdir, timeout) {
                 Ok(rep) => {
                     if let Some(nv) = has_same(&rep, &v.invariant, &v.key) {
                         cur = cand;
@@ -580,15 +600,89 @@ pub fn check_main(e: &dyn Engine, tier: Tier, seed: u64, workers: usize, runs_ov
     let mut violation_lines = Vec::new();
     let tmp = root.join("replays/tmp");
     let repl_dir = root.join("replays").join(e.id());
-    for (key, (run, v, plan)) in new_by_key.iter().take(8) {
+    let mut reported: BTreeSet<String> = BTreeSet::new();
+    let mut processed = 0usize;
+    for (key, (run, v, plan)) in new_by_key.iter() {
+        if violations_out >= 6 || processed >= 16 {
+            break;
+        }
+        processed += 1;
         std::fs::create_dir_all(&repl_dir).ok();
-        let (mplan, mv, execs) = minimise(e, plan.clone(), v, &tmp, 300);
-        // confirm in a fresh process
-        let confirm = exec_fresh(e.id(), &mplan, &tmp, Duration::from_secs(60));
-        let confirmed = match &confirm {
-            Ok(rep) => has_same(rep, &v.invariant, &v.key).is_some(),
-            Err(m) => m == "timeout" && v.invariant == "T4" || v.key == "T1:abort",
+        let hangish = v.invariant == "T4" || v.key == "T1:abort";
+        // (A) the run alone, in a fresh process
+        let alone = exec_fresh(e.id(), plan, &tmp, if hangish { e.run_timeout() } else { Duration::from_secs(60) });
+        let mut target: Option<Violation> = None;
+        let mut prelude: Vec<Value> = Vec::new();
+        match &alone {
+            Ok(rep) => {
+                if let Some(same) = has_same(rep, &v.invariant, &v.key) {
+                    target = Some(same);
+                } else if let Some(other) = rep.violations.iter().find(|o| is_known(&known, e.id(), &o.key).is_none()) {
+                    // reproduces as a differently keyed violation of the same property
+                    target = Some(other.clone());
+                }
+            }
+            Err(m) => {
+                if hangish && (m == "timeout" || v.key == "T1:abort") {
+                    target = Some(v.clone());
+                }
+            }
+        }
+        if target.is_none() && !hangish {
+            // (B) with the process history of the earlier runs of its chunk
+            let start = (*run / chunk) * chunk;
+            let pre: Vec<Value> = (start..*run).map(|r| e.plan(seed, r, tier)).collect();
+            if let Ok(rep) = exec_fresh_pre(e.id(), &pre, plan, &tmp, Duration::from_secs(120)) {
+                let hit = has_same(&rep, &v.invariant, &v.key).or_else(|| rep.violations.iter().find(|o| is_known(&known, e.id(), &o.key).is_none()).cloned());
+                if let Some(h) = hit {
+                    // drop prelude plans while it still reproduces (halves, then singles)
+                    let mut cur = pre;
+                    let mut step = cur.len().div_ceil(2).max(1);
+                    let mut tries = 0;
+                    while step >= 1 && !cur.is_empty() && tries < 40 {
+                        let mut i = 0;
+                        let mut shrunk = false;
+                        while i < cur.len() && tries < 40 {
+                            let mut cand = cur.clone();
+                            let hi = (i + step).min(cand.len());
+                            cand.drain(i..hi);
+                            tries += 1;
+                            let ok = exec_fresh_pre(e.id(), &cand, plan, &tmp, Duration::from_secs(120))
+                                .map(|r| has_same(&r, &h.invariant, &h.key).is_some())
+                                .unwrap_or(false);
+                            if ok {
+                                cur = cand;
+                                shrunk = true;
+                            } else {
+                                i += step;
+                            }
+                        }
+                        if step == 1 && !shrunk {
+                            break;
+                        }
+                        step = if step > 1 { step / 2 } else { 1 };
+                    }
+                    prelude = cur;
+                    target = Some(h);
+                }
+            }
+        }
+        let target = match target {
+            Some(t) => t,
+            None => {
+                harness_errors.push(format!(
+                    "violation {} of run {} did not reproduce in a fresh process, neither alone nor after the earlier runs of its chunk: {}",
+                    key,
+                    run,
+                    v.detail.chars().take(200).collect::<String>()
+                ));
+                continue;
+            }
         };
+        if !reported.insert(target.key.clone()) {
+            continue;
+        }
+        let (mplan, mv, execs) = minimise_pre(e, &prelude, plan.clone(), &target, &tmp, 300);
         let rf = ReplayFile {
             property: e.id().into(),
             seed,
@@ -598,31 +692,23 @@ pub fn check_main(e: &dyn Engine, tier: Tier, seed: u64, workers: usize, runs_ov
             detail: mv.detail.clone(),
             minimised: execs > 0,
             plan: mplan,
+            prelude,
         };
-        let path = repl_dir.join(format!("{}-seed{}-run{}.json", slug(key), seed, run));
+        let path = repl_dir.join(format!("{}-seed{}-run{}.json", slug(&mv.key), seed, run));
         std::fs::write(&path, serde_json::to_string_pretty(&rf).unwrap()).ok();
-        if confirmed {
-            violations_out += 1;
-            violation_lines.push(format!(
-                "VIOLATION property={} replay={} invariant={} key={} :: {}",
-                e.id(),
-                path.display(),
-                mv.invariant,
-                mv.key,
-                mv.detail.chars().take(300).collect::<String>()
-            ));
-        } else {
-            harness_errors.push(format!(
-                "violation {} of run {} did not reproduce in a fresh process (replay kept at {}): {:?}",
-                key,
-                run,
-                path.display(),
-                confirm.as_ref().err()
-            ));
-        }
+        violations_out += 1;
+        violation_lines.push(format!(
+            "VIOLATION property={} replay={} invariant={} key={}{} :: {}",
+            e.id(),
+            path.display(),
+            mv.invariant,
+            mv.key,
+            if &mv.key != key { format!(" (first observed in-process as {key})") } else { String::new() },
+            mv.detail.chars().take(300).collect::<String>()
+        ));
     }
-    if new_by_key.len() > 8 {
-        violations_out += new_by_key.len() - 8;
+    if new_by_key.len() > processed {
+        println!("NOTE: {} further violation keys were observed and not individually replayed", new_by_key.len() - processed);
     }
 
     let wall = t0.elapsed().as_secs_f64();
@@ -733,6 +819,11 @@ pub fn exec_main(engines: &[&dyn Engine], path: &str) -> i32 {
             return 2;
         }
     };
+    if let Some(pre) = v.get("prelude").and_then(|p| p.as_array()) {
+        for p in pre {
+            let _ = e.execute(p);
+        }
+    }
     let rep = e.execute(&v["plan"]);
     println!("{}", serde_json::to_string(&rep).unwrap());
     if rep.violations.is_empty() {
@@ -778,8 +869,14 @@ pub fn replay_main(engines: &[&dyn Engine], path: &str) -> i32 {
             }
         }
     } else {
+        for p in &rf.prelude {
+            let _ = e.execute(p);
+        }
         e.execute(&rf.plan)
     };
+    if !rf.prelude.is_empty() {
+        println!("(after {} prelude runs in the same process)", rf.prelude.len());
+    }
     if let Some(log) = &rep.log {
         for l in log {
             println!("  {}", l);
